@@ -69,7 +69,7 @@ Lemma coefV_CT U t t' : coef (Vb U t) (CT t') = 0.
 Proof. unfold Vb. rewrite lin_sum_coef. induction U; cbn -[ucell]; [reflexivity|]. rewrite IHU, coef_ucell_CT. lia. Qed.
 
 (* the user set: no duplicates, no module account *)
-Definition is_module (a : Z) : bool := (1 <=? a) && (a <=? 24).
+Definition is_module (a : Z) : bool := (1 <=? a) && (a <=? 25).
 Definition users (U : list Z) : Prop := NoDup U /\ forall a, In a U -> is_module a = false.
 
 Lemma users_mod U a : users U -> is_module a = true -> memZ a U = false.
@@ -113,6 +113,7 @@ Ltac memU U HU :=
   | |- context [memZ A_WFX U] => rewrite (users_mod U A_WFX HU eq_refl)
   | |- context [memZ A_EVM U] => rewrite (users_mod U A_EVM HU eq_refl)
   | |- context [memZ A_PRE U] => rewrite (users_mod U A_PRE HU eq_refl)
+  | |- context [memZ A_ESC U] => rewrite (users_mod U A_ESC HU eq_refl)
   | |- context [memZ (cacc ?c) U] => rewrite (users_mod U (cacc c) HU (cacc_module c))
   end.
 
@@ -177,7 +178,11 @@ Proof. intros; subst co; unfold handler_erc20_token; destruct (t_kind tk); vb_fi
 Lemma vb_ibc_to_base tk a x : In a U -> pdelta co (ibc_to_base tk a x) = 0.
 Proof. intros; subst co; unfold ibc_to_base; cbn [pdelta]; vb_fin U HU. Qed.
 Lemma vb_base_to_ibc tk a x : In a U -> pdelta co (base_to_ibc tk a x) = 0.
-Proof. intros; subst co; unfold base_to_ibc; cbn [pdelta]; vb_fin U HU. Qed.
+Proof. intros; subst co; unfold base_to_ibc; destruct (is_fx tk); cbn [pdelta]; vb_fin U HU. Qed.
+Lemma vb_ibc_send tk a x : In a U -> pdelta co (ibc_send tk a x) = - (tki tk * x).
+Proof. intros; subst co; unfold ibc_send, tki; destruct (is_fx tk); cbn [pdelta]; vb_fin U HU. Qed.
+Lemma vb_ibc_recv tk a x : In a U -> pdelta co (send A_ESC a (base_of tk) x) = tki tk * x.
+Proof. intros; subst co; unfold tki; vb_fin U HU. Qed.
 
 Lemma vb_add_bridge_fee tk c a x : In a U -> pdelta co (add_bridge_fee_prog tk c a x) = - (tki tk * x).
 Proof. intros; subst co; unfold add_bridge_fee_prog, tki; destruct (origin_or_converted tk); vb_fin U HU. Qed.
@@ -213,7 +218,7 @@ Proof. intros. unfold refund_unlock, tki. vb_fin U HU. Qed.
 
 Lemma blocks_hold : blocks g U (Vb U t) wT gdT geT 0 1.
 Proof.
-  constructor; intros; try (apply dB_pdelta); [| | | | | | |reflexivity| | | | | | | | | | | | |].
+  constructor; intros; try (apply dB_pdelta); [| | | | | | |reflexivity| | | | | | | | | | | | | | |].
   - rewrite vb_base_to_bridge_token by assumption. reflexivity.
   - rewrite vb_bridge_token_to_base by assumption. reflexivity.
   - apply vb_convert_coin; assumption.
@@ -232,6 +237,8 @@ Proof.
   - rewrite vb_ibc_mint by assumption. reflexivity.
   - apply vb_ibc_to_base; assumption.
   - apply vb_base_to_ibc; assumption.
+  - rewrite vb_ibc_send by assumption. reflexivity.
+  - rewrite vb_ibc_recv by assumption. reflexivity.
   - unfold gdT, geT, wT, ind. cbn [dept exet]. rewrite get1_set1, (Z.eqb_sym t i).
     destruct (Z.eqb_spec i t); [subst|]; split; lia.
   - unfold gdT, geT, wT, ind. cbn [dept exet]. rewrite get1_set1, (Z.eqb_sym t i).
@@ -329,7 +336,7 @@ Proof.
   constructor; [intros tk c' a x Htk Ha|intros tk c' a x Htk Ha|intros tk a b x Htk Ha Hb|intros tk a b x Htk Ha Hb|
                 intros tk a src tg x Htk Ha|intros tk a b src tg x Htk Ha Hb|intros tk c' a x Htk Ha|reflexivity|
                 intros tk c' x Htk|intros tk c' a x Htk Ha|intros a x Ha|intros tk a x Htk Ha|intros a b d x Ha Hb|
-                intros i' a b x Ha Hb|intros a x Ha|intros a x Ha|intros tk a x Htk Ha|intros tk a x Htk Ha|intros tk a x Htk Ha| |].
+                intros i' a b x Ha Hb|intros a x Ha|intros a x Ha|intros tk a x Htk Ha|intros tk a x Htk Ha|intros tk a x Htk Ha|intros tk a x Htk Ha|intros tk a x Htk Ha| |].
   - sup_blk tk Htk.
   - sup_blk tk Htk.
   - sup_blk tk Htk.
@@ -348,6 +355,8 @@ Proof.
   - sup_blk tk Htk. all: pose proof c_range; rewrite ?(proj2 (Z.eqb_neq 9 c)) by lia; cbn [andb]; lia.
   - sup_blk tk Htk.
   - sup_blk tk Htk.
+  - sup_blk tk Htk. all: pose proof c_range; rewrite ?(proj2 (Z.eqb_neq 9 c)) by lia; cbn [andb]; lia.
+  - sup_blk tk Htk. all: pose proof c_range; rewrite ?(proj2 (Z.eqb_neq 9 c)) by lia; cbn [andb]; lia.
   - intros gh i' c' x. unfold gdS, geS, wS, ind. cbn [depc exec]. rewrite get2_set2. unfold key_eqb. cbn [fst snd].
     rewrite (Z.eqb_sym i i'), (Z.eqb_sym c c'). destruct (Z.eqb_spec i' i), (Z.eqb_spec c' c); cbn [andb]; subst; split; lia.
   - intros gh i' c' x. unfold gdS, geS, wS, ind. cbn [depc exec]. rewrite get2_set2. unfold key_eqb. cbn [fst snd].
@@ -359,7 +368,7 @@ End SUP.
 (* ------------------------------------------------------------------------------------------------ *)
 (** * Bank consistency: the balances of the module accounts and the users add up to the supply *)
 
-Definition mods : list Z := [1; 2; 3; 4; 5; 6; 7; 8; 20; 21; 22; 23; 24].
+Definition mods : list Z := [1; 2; 3; 4; 5; 6; 7; 8; 20; 21; 22; 23; 24; 25].
 
 Section BANKSUM.
 Variables (g : cfg) (U : list Z) (d : Z).
@@ -417,6 +426,7 @@ Ltac memH :=
   | |- context [memZ A_WFX HH] => change (memZ A_WFX HH) with true
   | |- context [memZ A_EVM HH] => change (memZ A_EVM HH) with true
   | |- context [memZ A_PRE HH] => change (memZ A_PRE HH) with true
+  | |- context [memZ A_ESC HH] => change (memZ A_ESC HH) with true
   end.
 
 Ltac bs_blk := apply dB_pdelta; blk_unfold; try match goal with K : t_kind _ = _ |- _ => rewrite ?K end;
@@ -427,7 +437,7 @@ Proof.
   constructor; [intros tk c' a x Htk Ha|intros tk c' a x Htk Ha|intros tk a b x Htk Ha Hb|intros tk a b x Htk Ha Hb|
                 intros tk a src tg x Htk Ha|intros tk a b src tg x Htk Ha Hb|intros tk c' a x Htk Ha|reflexivity|
                 intros tk c' x Htk|intros tk c' a x Htk Ha|intros a x Ha|intros tk a x Htk Ha|intros a b d' x Ha Hb|
-                intros i' a b x Ha Hb|intros a x Ha|intros a x Ha|intros tk a x Htk Ha|intros tk a x Htk Ha|intros tk a x Htk Ha| |].
+                intros i' a b x Ha Hb|intros a x Ha|intros a x Ha|intros tk a x Htk Ha|intros tk a x Htk Ha|intros tk a x Htk Ha|intros tk a x Htk Ha|intros tk a x Htk Ha| |].
   all: try (destruct (t_kind tk) eqn:K).
   all: try solve [bs_blk].
   all: try (intros; split; lia).
@@ -459,6 +469,7 @@ Ltac a0_rw :=
   | |- context [a0 =? A_WFX] => rewrite (a0_mod A_WFX eq_refl)
   | |- context [a0 =? A_EVM] => rewrite (a0_mod A_EVM eq_refl)
   | |- context [a0 =? A_PRE] => rewrite (a0_mod A_PRE eq_refl)
+  | |- context [a0 =? A_ESC] => rewrite (a0_mod A_ESC eq_refl)
   end.
 
 Ltac fr_blk := apply dB_pdelta; blk_unfold; try match goal with K : t_kind _ = _ |- _ => rewrite ?K end;
@@ -471,7 +482,7 @@ Proof.
   constructor; [intros tk c' a x Htk Ha|intros tk c' a x Htk Ha|intros tk a b x Htk Ha Hb|intros tk a b x Htk Ha Hb|
                 intros tk a src tg x Htk Ha|intros tk a b src tg x Htk Ha Hb|intros tk c' a x Htk Ha|reflexivity|
                 intros tk c' x Htk|intros tk c' a x Htk Ha|intros a x Ha|intros tk a x Htk Ha|intros a b d' x Ha Hb|
-                intros i' a b x Ha Hb|intros a x Ha|intros a x Ha|intros tk a x Htk Ha|intros tk a x Htk Ha|intros tk a x Htk Ha| |].
+                intros i' a b x Ha Hb|intros a x Ha|intros a x Ha|intros tk a x Htk Ha|intros tk a x Htk Ha|intros tk a x Htk Ha|intros tk a x Htk Ha|intros tk a x Htk Ha| |].
   all: try (destruct (t_kind tk) eqn:K).
   all: try solve [destruct Hc0 as [[d0 ->]|[i0 ->]]; fr_blk].
   all: try (intros; split; lia).
@@ -600,16 +611,17 @@ Qed.
 (* a MsgSendToExternal by a holder whose balance suffices is accepted as soon as, for a module-owned token, the chain
    module holds the amount in the bridge denomination; FX and externally-owned tokens need no module-side funds *)
 Theorem withdrawable_guarded g s c i tk a amt fee :
-  find_tok g i = Some tk -> on_chain tk c = true -> a <> cacc c -> 0 <= amt + fee ->
+  find_tok g i = Some tk -> on_chain tk c = true -> a <> cacc c -> 0 < amt -> 0 < fee ->
   amt + fee <= cget (CB a (base_of tk)) (sb s) ->
   0 <= cget (CB (cacc c) (base_of tk)) (sb s) -> 0 <= cget (CB a (alias_of tk c)) (sb s) ->
   0 <= cget (CB (cacc c) (alias_of tk c)) (sb s) ->
   (t_kind tk = KMod -> amt + fee <= cget (CB (cacc c) (alias_of tk c)) (sb s)) ->
   snd (step g s (OSendToExternal c i a amt fee)) = true.
 Proof.
-  intros Hi Hon Hne Hx Hbal N1 N2 N3 Hmod.
-  destruct (b2b_succeeds tk c a (amt + fee) (sb s) Hon Hne Hx Hbal N1 N2 N3 Hmod) as [b' Hb].
-  unfold step, run, with_tok. rewrite Hi. unfold add_to_outgoing_pool, bind, doB. rewrite Hb. reflexivity.
+  intros Hi Hon Hne Ha Hf Hbal N1 N2 N3 Hmod.
+  destruct (b2b_succeeds tk c a (amt + fee) (sb s) Hon Hne ltac:(lia) Hbal N1 N2 N3 Hmod) as [b' Hb].
+  unfold step, run, with_tok. rewrite Hi. unfold add_to_outgoing_pool, bind, doB, guard.
+  rewrite (proj2 (Z.ltb_lt 0 amt) Ha), (proj2 (Z.ltb_lt 0 fee) Hf). cbn [andb]. rewrite Hb. reflexivity.
 Qed.
 
 (* ------------------------------------------------------------------------------------------------ *)
